@@ -488,6 +488,9 @@ func main() {
 			cls = k.String() + "/declared=" + declNames[decl]
 		}
 		c.Eval(cls, declNames[decl]+":"+out)
+		if v.decoded && !v.accepted && required && decl == declCorrect {
+			c.Add("specified_hash_refused", 1)
+		}
 		if !v.decoded || !v.accepted {
 			return
 		}
@@ -542,7 +545,8 @@ func main() {
 		for _, d := range decls {
 			v, txb := w.observe(env, idx, b, d.h)
 			judge(k, variant, b, d.kind, d.h, v, txb, required, exp)
-			if d.kind == declCorrect && variant == "" && k.table == 0 && k.datums == dOne && (k.langs == 7 || k.langs == 0) && k.prov == 0 && !k.dtagged {
+			if d.kind == declCorrect && variant == "" && k.datums == dOne && k.prov == 0 && !k.dtagged &&
+				((k.langs == 7 && k.table == 1 && k.era == EraConway) || (k.langs == 0 && k.era == EraAlonzo && k.table == 0) || (k.langs == 3 && k.era == EraBabbage && k.table == 1)) {
 				c.Sample(map[string]any{"case": k.String(), "declared": hex.EncodeToString(d.h), "accepted": v.accepted, "errors": v.sdhErrs, "lang_views": vlib.Hex(langViews(k.langs, tabs[k.table])), "tx_cbor": vlib.Hex(txb)})
 			}
 			// the specified hash was refused with a mismatch: does the rule accept its own, different, hash?
@@ -577,6 +581,7 @@ func main() {
 		}
 	})
 
+	c.Add("specified_hash_refused", 0)
 	c.Set("cases", len(jobs))
 	if len(tl.keyCases) > 0 {
 		m := map[string][]string{}
